@@ -51,6 +51,7 @@ class Registry(object):
     def __init__(self):
         self.contracts = collections.OrderedDict()   # (module, qualname) -> Contract
         self.methods = {}                            # (sidecar class, method) -> Contract
+        self.ifaces = {}                             # (sidecar class, method) -> interface Contract
         self.classes = {}                            # sidecar class -> {field: Ty}
         self.pyclass = {}                            # python class name -> sidecar class
         self.externals = {}                          # dotted name -> Contract | 'drop'
@@ -73,12 +74,15 @@ class Registry(object):
             self.methods[tuple(c.iface)] = c
         elif "." in qualname and "<locals>" not in qualname:
             pc, m = qualname.rsplit(".", 1)
-            self.methods[(self.pyclass.get(pc, pc), m)] = c
+            key = (self.pyclass.get(pc, pc), m)
+            if key not in self.ifaces:          # an interface contract is what callers see; overrides refine it
+                self.methods[key] = c
         return c
 
     def interface(self, cls, method, **kw):
         c = Contract("<interface>", "%s.%s" % (cls, method), external=True, **kw)
         self.methods[(cls, method)] = c
+        self.ifaces[(cls, method)] = c
         return c
 
     def external(self, dotted, **kw):
@@ -111,7 +115,7 @@ class Registry(object):
         self.assumptions.append(text)
 
     def merge(self, other):
-        for k in ("contracts", "methods", "classes", "pyclass", "externals", "sorts", "specfuns",
+        for k in ("contracts", "methods", "ifaces", "classes", "pyclass", "externals", "sorts", "specfuns",
                   "exc_attrs", "exc_extra", "consts"):
             getattr(self, k).update(getattr(other, k))
         for m, d in other.globals.items():
